@@ -26,7 +26,7 @@ func runC17(c *Ctx) {
 		"every file referenced by the MetaStore is one case. Non-trivial: every case (a file with >= 1 block); distinct by file bytes."
 	sh := c.newShard("t17", runnerT, "caseT", "mismatches", "violations")
 	sh.limit = 6
-	nScen := c.pick(16, 220)
+	nScen := c.pick(11, 220)
 	for s := 0; s < nScen; s++ {
 		c17Scenario(c, sh, s)
 	}
